@@ -41,6 +41,8 @@ class C06(Base):
             yield c
         for c in resgen.bomb_cases(rng):
             yield c
+        for c in resgen.arg_bomb_cases(rng):
+            yield c
         for c in self.extremes(rng):
             yield c
         n = 2500 if tier == "quick" else 150000
@@ -67,6 +69,22 @@ class C06(Base):
 
     def project(self, case, obs):
         return resfam.strip_spec(obs)
+
+    def predicate2(self, case, impl_obs, model_obs):
+        """'at most 100 placeables are resolved per call … exceeding the limit is reported': where the reference
+        semantics (evaluated next to the model) runs into the limit, the implementation must report it, once"""
+        for sub_case, so, mo in zip(case.split(" | "), impl_obs.split(" | "), model_obs.split(" | ")):
+            if "unsupported" in mo:
+                continue
+            reqs = resfam.case_parts(sub_case)["reqs"]
+            for rq, r, sv in zip(reqs, resfam.parse_obs(so), resfam.spec_verdicts(mo)):
+                if "raw" in r or sv is None or sv[0] != "limit":
+                    continue
+                for errs in (r["TE"], r["WE"]):
+                    if errs.count("TooMany") != 1:
+                        return "request %s: more than 100 placeables are needed but the limit was reported %d times" % (
+                            rq.split(":")[0], errs.count("TooMany"))
+        return None
 
     def nontrivial(self, case, impl_obs):
         return "Ref:" in impl_obs or "Cyclic" in impl_obs or "TooMany" in impl_obs or "->" in resfam.sources(case).decode("utf-8", "replace")
